@@ -446,10 +446,105 @@ func runKindCodec(c *core.Ctx) {
 			}
 		}
 	}
+	if !(okNum && okArr) {
+		// the same read path by path: the bounds may be per-clause variables put together once
+		// at the end (`*k = Nip11Kind{From: from, To: to}`)
+		pn, pa, bad := kindDecodePaths(dec)
+		if !bad && pn && pa {
+			okNum, okArr = true, true
+		}
+	}
 	c.Check(okNum && okArr, nil, fname(c, dec), "decode", P.Pos(dec.Pos()), "number n ⇒ From = To = n; array of exactly 2 ⇒ From = v[0], To = v[1]", fmt.Sprintf("decoder shape not recognised as the inverse of the encoder (number: %v, pair: %v; stores: %v)", okNum, okArr, stores))
 }
 
 // sliceLitElems: elements of a slice literal []T{a, b, …} (new [n]T; stores; slice).
 func sliceLitElems(v ssa.Value) ([]ssa.Value, bool) {
 	return an.VariadicElems(an.Unwrap(v))
+}
+
+// kindDecodePaths: on every path of the decoder that succeeds after a type clause, what ends
+// up in From and To. number clause: the same Int64 of the number in both; array clause:
+// element 0 and element 1, behind len == 2. bad: a succeeding clause path that is neither.
+func kindDecodePaths(dec *ssa.Function) (number, array, bad bool) {
+	var stores []*ssa.Store
+	an.Instrs(dec, func(in ssa.Instruction) {
+		if s, ok := in.(*ssa.Store); ok {
+			if ap := an.PathOf(s.Addr); strings.HasSuffix(ap, ".From") || strings.HasSuffix(ap, ".To") {
+				stores = append(stores, s)
+			}
+		}
+	})
+	for _, rb := range an.ReturnBlocks(dec) {
+		rv := an.ReturnValues(an.LastInstr(rb).(*ssa.Return))
+		if len(rv) == 0 || !an.IsNilConst(rv[len(rv)-1]) {
+			continue
+		}
+		paths, ok := an.PathsTo(dec, rb, 2048)
+		if !ok {
+			return false, false, true
+		}
+		for _, p := range paths {
+			if !an.Feasible(p) {
+				continue
+			}
+			// which clause?
+			clause := ""
+			len2 := false
+			for _, cd := range p.Conds() {
+				cd = an.NormCond(cd)
+				if ex, isEx := cd.V.(*ssa.Extract); isEx && cd.True && ex.Index == 1 {
+					if ta, isTA := ex.Tuple.(*ssa.TypeAssert); isTA {
+						switch t := ta.AssertedType.String(); {
+						case strings.HasSuffix(t, "json.Number"):
+							clause = "number"
+						case t == "[]interface{}" || t == "[]any":
+							clause = "array"
+						}
+					}
+				}
+				if bin, isB := cd.V.(*ssa.BinOp); isB && strings.HasPrefix(an.PathOf(bin.X), "len(") {
+					if k, isK := an.ConstInt(bin.Y); isK && k == 2 && (bin.Op == token.EQL) == cd.True && (bin.Op == token.EQL || bin.Op == token.NEQ) {
+						len2 = true
+					}
+				}
+			}
+			if clause == "" {
+				continue // other JSON values: the zero kind, not this rule's business
+			}
+			// the last stores to From / To on this path
+			var from, to ssa.Value
+			for _, b := range p {
+				for _, in := range b.Instrs {
+					for _, s := range stores {
+						if in == ssa.Instruction(s) {
+							if strings.HasSuffix(an.PathOf(s.Addr), ".From") {
+								from = an.PhiOnPath(s.Val, p)
+							} else {
+								to = an.PhiOnPath(s.Val, p)
+							}
+						}
+					}
+				}
+			}
+			if from == nil || to == nil {
+				return false, false, true
+			}
+			fp, tp := an.PathOf(from), an.PathOf(to)
+			switch clause {
+			case "number":
+				if fp == tp && strings.Contains(fp, "Number).Int64") {
+					number = true
+				} else {
+					bad = true
+				}
+			case "array":
+				if len2 && fp != tp && strings.Contains(fp, "[0]") && strings.Contains(tp, "[1]") && strings.Contains(fp, "Number).Int64") && strings.Contains(tp, "Number).Int64") {
+					array = true
+				} else {
+					bad = true
+				}
+			}
+		}
+	}
+	return
 }
